@@ -1035,6 +1035,35 @@ impl<'a> Sim<'a> {
                         self.violate("C01", "rj/value.canonical-bytes".into(), json!({"oracle":"rj","text":clip(text),"real":format!("{out:?}"),"expected":clip(&canon)}));
                         return;
                     }
+                    // every other way of writing the value out gives the same bytes
+                    let shown = real::canonical_display(&cv);
+                    if shown != Outcome::Ok(canon.clone()) {
+                        self.violate("C01", "rj/value.display-bytes".into(), json!({"oracle":"rj","text":clip(text),"real":format!("{shown:?}"),"expected":clip(&canon)}));
+                        return;
+                    }
+                    // parsing the canonical text back gives an equal value
+                    match real::parse_value(&canon) {
+                        Outcome::Ok(back) if back == cv => {}
+                        other => {
+                            self.violate("C01", "rj/value.roundtrip".into(), json!({"oracle":"rj","text":clip(text),"parsed_back":format!("{other:?}"),"expected":clip(&canon)}));
+                            return;
+                        }
+                    }
+                    // ... and the conversion to serde_json's value loses nothing
+                    let plain = real::into_json_value_text(cv.clone());
+                    match &plain {
+                        Outcome::Ok(ptext) => match real::parse_value(ptext) {
+                            Outcome::Ok(back) if back == cv => {}
+                            other => {
+                                self.violate("C01", "rj/value.into-json-value".into(), json!({"oracle":"rj","text":clip(text),"via_serde_json_value":clip(ptext),"parsed_back":format!("{other:?}")}));
+                                return;
+                            }
+                        },
+                        other => {
+                            self.violate("C01", "rj/value.into-json-value".into(), json!({"oracle":"rj","text":clip(text),"real":format!("{other:?}")}));
+                            return;
+                        }
+                    }
                 }
                 other => {
                     self.violate("C01", "rj/value.refused-valid".into(), json!({"oracle":"rj","text":clip(text),"real":format!("{other:?}")}));
@@ -1057,6 +1086,20 @@ impl<'a> Sim<'a> {
                 }
             }
         }
+        if let Ok(sv) = serde_json::from_str::<serde_json::Value>(&spelled) {
+            match real::try_from_json_value(sv) {
+                Outcome::Ok(cv) => {
+                    if real::canonical_full(&cv) != Outcome::Ok(canon.clone()) {
+                        self.violate("C01", "rj/try_from_json_value.bytes".into(), json!({"oracle":"rj","text":clip(&spelled),"expected":clip(&canon)}));
+                        return;
+                    }
+                }
+                other => {
+                    self.violate("C01", "rj/try_from_json_value.refused-valid".into(), json!({"oracle":"rj","text":clip(&spelled),"real":format!("{other:?}")}));
+                    return;
+                }
+            }
+        }
         // numbers canonical form cannot represent are refused, never silently altered
         let bad = *self.t.pick(&["1.0", "1e2", "-0", "9007199254740992", "-9007199254740992", "1E0", "0.5", "-0.0", "100000000000000000000", "1.5e300", "9223372036854775808", "2e-1"]);
         let wrapped = match self.t.below(3) {
@@ -1073,6 +1116,10 @@ impl<'a> Sim<'a> {
         if let Ok(sv) = serde_json::from_str::<serde_json::Value>(&wrapped) {
             if let Outcome::Ok(cv) = real::to_canonical_value(&sv) {
                 self.violate("C01", "rj/to_canonical_value.accepted-non-canonical-number".into(), json!({"oracle":"rj","text":wrapped,"real":format!("{:?}", real::canonical_full(&cv))}));
+                return;
+            }
+            if let Outcome::Ok(cv) = real::try_from_json_value(sv) {
+                self.violate("C01", "rj/try_from_json_value.accepted-non-canonical-number".into(), json!({"oracle":"rj","text":wrapped,"real":format!("{:?}", real::canonical_full(&cv))}));
             }
         }
     }
